@@ -685,6 +685,8 @@ pub fn run_golden() -> CaseOut {
 pub enum JsOp {
     Append(Vec<Blk>),
     Clear(u64, u64),
+    /// JS core.truncate(n): length shrinks to n, fork + 1 (entry flags 4|8, no tree nodes)
+    Truncate(u64),
 }
 
 #[derive(Clone, Debug, Serialize, Deserialize, PartialEq, Default)]
@@ -717,6 +719,7 @@ struct Builder {
     blocks: Vec<Vec<u8>>,
     tree: RefTree,
     model: Model,
+    fork: u64,
 }
 
 impl Builder {
@@ -741,10 +744,10 @@ impl Builder {
                         }
                     }
                 }
-                let sig = self.key.sign(&self.tree.signable(len, 0)).to_bytes().to_vec();
+                let sig = self.key.sign(&self.tree.signable(len, self.fork)).to_bytes().to_vec();
                 JsEntry {
                     tree_nodes: nodes,
-                    upgrade: Some((0, start, len, sig)),
+                    upgrade: Some((self.fork, start, len, sig)),
                     bitfield: Some((false, start, len - start)),
                     ..Default::default()
                 }
@@ -752,6 +755,28 @@ impl Builder {
             JsOp::Clear(s, e) => {
                 self.model.clear(*s, *e);
                 JsEntry { bitfield: Some((true, *s, e - s)), ..Default::default() }
+            }
+            JsOp::Truncate(n) => {
+                let old = self.blocks.len() as u64;
+                let n = (*n).min(old);
+                self.blocks.truncate(n as usize);
+                self.tree = RefTree::from_blocks(&self.blocks);
+                self.fork += 1;
+                self.model.clear(n, old.max(n + 1));
+                self.model.length = n;
+                self.model.byte_length = self.blocks.iter().map(|b| b.len() as u64).sum();
+                self.model.fork = self.fork;
+                let sig = if n == 0 {
+                    // JS signs the empty tree too
+                    self.key.sign(&crate::merkle::signable(&crate::merkle::tree_hash(&[]), 0, self.fork)).to_bytes().to_vec()
+                } else {
+                    self.key.sign(&self.tree.signable(n, self.fork)).to_bytes().to_vec()
+                };
+                JsEntry {
+                    upgrade: Some((self.fork, n, n, sig)),
+                    bitfield: if old > n { Some((true, n, old - n)) } else { None },
+                    ..Default::default()
+                }
             }
         }
     }
@@ -761,7 +786,7 @@ impl Builder {
 /// state an opener must reconstruct.
 pub fn write_store(spec: &JsStoreSpec) -> (Files, Model, SigningKey) {
     let key = crate::world::key_from_seed(spec.key_seed);
-    let mut b = Builder { key: key.clone(), blocks: vec![], tree: RefTree::new(), model: Model::new(!spec.read_only) };
+    let mut b = Builder { key: key.clone(), blocks: vec![], tree: RefTree::new(), model: Model::new(!spec.read_only), fork: 0 };
     for op in &spec.flushed {
         b.apply(op);
     }
@@ -794,10 +819,10 @@ pub fn write_store(spec: &JsStoreSpec) -> (Files, Model, SigningKey) {
             manifest_pk: Some(pk.clone()),
             public_key: pk.clone(),
             secret_key: if spec.read_only { None } else { Some(sk64.clone()) },
-            fork: 0,
+            fork: b.fork,
             length: len,
             root_hash: if len == 0 { vec![] } else { b.tree.root_hash(len).to_vec() },
-            signature: if len == 0 { vec![] } else { b.key.sign(&b.tree.signable(len, 0)).to_bytes().to_vec() },
+            signature: if len == 0 { vec![] } else { b.key.sign(&b.tree.signable(len, b.fork)).to_bytes().to_vec() },
             contiguous_length: b.model.contiguous(),
         }
     };
@@ -850,7 +875,7 @@ pub fn write_store(spec: &JsStoreSpec) -> (Files, Model, SigningKey) {
     }
     let expected = b.model.clone();
     // what follows must be ignored by an opener
-    let mut ghost = Builder { key: key.clone(), blocks: b.blocks.clone(), tree: b.tree.clone(), model: b.model.clone() };
+    let mut ghost = Builder { key: key.clone(), blocks: b.blocks.clone(), tree: b.tree.clone(), model: b.model.clone(), fork: b.fork };
     for op in &spec.trailing_partial {
         let e = ghost.apply(op);
         oplog.extend_from_slice(&frame(&encode_entry(&e), cur_bit, true));
@@ -867,9 +892,11 @@ pub fn write_store(spec: &JsStoreSpec) -> (Files, Model, SigningKey) {
     }
     files[OPLOG] = oplog;
     // data: JS writes block data before the log entry, so every block (ghost ones too) is there
+    // (after a truncate the data file keeps the old bytes beyond the new byte length)
     for blk in &ghost.blocks {
         files[DATA].extend_from_slice(blk);
     }
+    files[DATA].extend_from_slice(&[0xEE; 64]);
     (files, expected, key)
 }
 
@@ -895,7 +922,15 @@ pub fn gen_js_store(r: &mut crate::rng::Rng, idx: u64) -> JsStoreSpec {
     let nf = r.below(5);
     let flushed = ops(r, &mut g, nf, &mut len);
     let ne = r.below(5);
-    let entries = ops(r, &mut g, ne, &mut len);
+    let mut entries = ops(r, &mut g, ne, &mut len);
+    if len > 1 && r.chance(1, 6) {
+        // An unflushed JS truncate (fork + 1). JS flushes right after logging a truncate (its
+        // tree cannot take appends on top of an unflushed truncation), so the entry can only be
+        // the LAST one: JS died between logging it and the flush.
+        let n = r.below(len);
+        entries.push(JsOp::Truncate(n));
+        len = n;
+    }
     let mut spec = JsStoreSpec {
         key_seed: idx ^ 0x5eed,
         flushed,
@@ -938,6 +973,7 @@ pub fn run_js_store(spec: &JsStoreSpec) -> CaseOut {
         Ok(st) => {
             let same = st.length == expected.length
                 && st.byte_length == expected.byte_length
+                && st.fork == expected.fork
                 && st.held == expected.held;
             if !same {
                 out.aborted = Some("reference writer/reader disagree (harness bug)".into());
@@ -955,6 +991,9 @@ pub fn run_js_store(spec: &JsStoreSpec) -> CaseOut {
     }
     if spec.cut_tail > 0 {
         out.count("foreign_cut_last_entry", 1);
+    }
+    if spec.entries.iter().any(|e| matches!(e, JsOp::Truncate(_))) {
+        out.count("foreign_unflushed_truncate_entry", 1);
     }
     if !spec.stale_tail.is_empty() {
         out.count("foreign_stale_entries", 1);
